@@ -249,6 +249,14 @@ def run(ck):
             elif gk == 'layout_flow_positive':
                 ok, why = layout_flow_positive(crate)
                 ck.ob('R7.3', 'layout-flow-positive|' + key, ok, s['loc'], why, fn=fn['path'])
+            elif gk == 'shared':
+                # the row rests on obligations of another property's check: re-run them on the same facts
+                import importlib
+                import core as _core
+                mod = importlib.import_module('rules.' + g['check'].lower())
+                sh = _core.Shared(ck, 'R7.3', lambda r, k, g=g: r == g['rule'] and k in g['keys'], '%s:%s|' % (g['check'], short(fn['path'])))
+                mod.run(sh)
+                ck.ob('R7.3', 'shared-guard-found|' + key, sh.count == len(g['keys']), s['loc'], '%d of %d %s %s obligations re-checked' % (sh.count, len(g['keys']), g['check'], g['rule']), fn=fn['path'])
     ck.floor('R7.1', n_sites, 140, 'panic-capable sites enumerated')
     ck.extra['stale_table_rows'] = sorted(k for k in rows if k not in used)
 
@@ -307,11 +315,12 @@ def run(ck):
             if fn.get('x') in panicsites.DERIVES:
                 continue
             i = 0
+            seen_disc = {}
             for n in walk(fn['body']):
                 if n.get('k') == 'Loop':
                     i += 1
                     n_loops += 1
-                    key = '%s|%s|%d' % (short(fn['path']), n.get('src'), i)
+                    key = '%s|%s|%s' % (short(fn['path']), n.get('src'), loop_disc(n, i, seen_disc))
                     row = loop_rows.get(key)
                     ck.ob('R7.7', 'loop|' + key, row is not None, crate.loc(n),
                           row['reason'] if row else 'unreviewed %s loop (no progress argument in tables/loops.json): %s' % (n.get('src'), pp(n, maxlen=80)), fn=fn['path'])
@@ -381,6 +390,21 @@ def range_ok(fn, arg):
     if problems:
         return False, 'range derives from %s (arithmetic or unknown source: may leave the text or split a character)' % '; '.join(problems[:3])
     return True, 'derives from byte_range()/start/end of syntax nodes or IR items (%d origin(s)), no arithmetic' % n_ok
+
+
+def loop_disc(n, ordinal, seen):
+    """what distinguishes a loop inside its function without line numbers: its condition (while), else its ordinal."""
+    d = None
+    if n.get('src') == 'while':
+        iff = next((x for x in walk(n) if x.get('k') == 'If'), None)
+        if iff is not None:
+            c = iff['c']
+            d = pp(c['e'] if c.get('k') == 'LetCond' else c, maxlen=48)
+    if d is None:
+        d = str(ordinal)
+    k = seen.get(d, 0)
+    seen[d] = k + 1
+    return d if k == 0 else '%s#%d' % (d, k + 1)
 
 
 def switch_guard_ok(crate):
